@@ -21,11 +21,11 @@ def pv_obj(src, mix=None, experiments=None):
     return W.mk(src, 'Pervaporation', tag='pervaporation', membrane=W.membrane(src, experiments=experiments), mixture=mix or W.mixture(src))
 
 
-def cpf_bind(src, pv, mode, model, given=True, feed_type='weight', P=(P1, P2), feed=None, mix=None):
+def cpf_bind(src, pv, mode, model, given=True, feed_type='weight', P=(P1, P2), feed=None, mix=None, units='kg/(m2*h*kPa)'):
     Tp, pp = mode_args(mode)
     f = src.find(CPF)
     kw = dict(feed_temperature=Tt, composition=feed or W.composition(src, Xf, feed_type), precision=PREC, permeate_temperature=Tp, permeate_pressure=pp,
-              first_component_permeance=W.permeance(src, P[0]) if given else None, second_component_permeance=W.permeance(src, P[1]) if given else None,
+              first_component_permeance=W.permeance(src, P[0], units) if given else None, second_component_permeance=W.permeance(src, P[1], units) if given else None,
               calculation_type=model)
     def bind(ex):
         env = ex.bind(f, [], kw, self_obj=pv)
